@@ -1,5 +1,6 @@
 """C15 - explainer call contract: defaults, loss signature, feature names, evaluation budget, storage update order."""
 import copy
+import functools
 import itertools
 import random
 
@@ -10,6 +11,90 @@ from ..harness import storage_proxy
 
 SHARDS = {"quick": 1, "thorough": 8}
 REPS = {"quick": 3, "thorough": 12}
+
+
+# invocations of the user's loss during the current call that were NOT the documented loss(y_true, y_pred_dict): (number of positional
+# arguments or None when the shape cannot tell, keyword names, further parameters that received something, y_true, type of y_pred).
+# Module level: survives any copy of the callable.  _LOSS_STATE = [number of invocations, y_true to expect or _ANY]
+_LOSS_CALLS = []
+_ANY = object()
+_LOSS_STATE = [0, _ANY]
+
+LOSS_SHAPES = ["two-positional", "positional-only", "defaulted-third", "defaulted-many", "keyword-only", "all-defaulted", "star-args",
+               "star-args-kwargs", "partial-keyword", "partial-positional", "callable-object", "bound-method"]
+STREAMS = ["unique"] * 5 + ["runs"] * 3 + ["same-object", "mutated-object"]
+
+
+def make_loss(shape, inner):
+    """A user loss of the given SHAPE around the pure loss `inner`.  All of them follow the documented positional contract
+    loss(y_true, y_pred_dict); what they own beyond it (defaulted / keyword-only options, *args, bound leading arguments, self) is
+    the user's business and must never receive anything from the explainer."""
+    def note(y_true, y_pred, npos=None, kwnames=(), extras=()):
+        _LOSS_STATE[0] += 1
+        want_y = _LOSS_STATE[1]
+        fine = (npos is None or npos == 2) and not kwnames and isinstance(y_pred, dict) and (want_y is _ANY or y_true == want_y)
+        for n, v, dflt in extras:
+            if v is not dflt and not (type(v) is type(dflt) and v == dflt):
+                fine = False
+        if not fine and len(_LOSS_CALLS) < 5:
+            got = [f"{n}={v!r}" for n, v, dflt in extras if not (v is dflt or (type(v) is type(dflt) and v == dflt))]
+            _LOSS_CALLS.append((npos, tuple(kwnames), got, y_true, type(y_pred).__name__))
+        return inner(y_true, y_pred)
+
+    if shape == "two-positional":
+        def loss(y_true, y_pred):          # the documented positional signature, nothing more
+            return note(y_true, y_pred)
+        return loss
+    if shape == "positional-only":
+        def loss(y_true, y_pred, /):
+            return note(y_true, y_pred, 2)
+        return loss
+    if shape == "defaulted-third":
+        def loss(y_true, y_pred, squared=True):
+            return note(y_true, y_pred, None, (), [("squared", squared, True)])
+        return loss
+    if shape == "defaulted-many":
+        def loss(y_true, y_pred, eps=1e-15, sample_weight=None, delta=1.0, multioutput="uniform_average"):
+            return note(y_true, y_pred, None, (), [("eps", eps, 1e-15), ("sample_weight", sample_weight, None), ("delta", delta, 1.0),
+                                                   ("multioutput", multioutput, "uniform_average")])
+        return loss
+    if shape == "keyword-only":
+        def loss(y_true, y_pred, *, squared=True, **options):
+            return note(y_true, y_pred, None, tuple(options), [("squared", squared, True)])
+        return loss
+    if shape == "all-defaulted":
+        def loss(y_true=0.0, y_pred=None, normalize=False):
+            return note(y_true, y_pred, None, (), [("normalize", normalize, False)])
+        return loss
+    if shape == "star-args":
+        return lambda *args: note(args[0] if args else None, args[1] if len(args) > 1 else None, len(args))
+    if shape == "star-args-kwargs":
+        def loss(*args, **kwargs):
+            vals = list(args) + list(kwargs.values())
+            return note(vals[0] if vals else None, vals[1] if len(vals) > 1 else None, len(args), tuple(kwargs))
+        return loss
+    if shape == "partial-keyword":
+        def scaled_loss(y_true, y_pred, weight=None, scale=2.0, *rest):
+            return note(y_true, y_pred, 2 + (weight is not None) + len(rest), (), [("weight", weight, None), ("scale", scale, 1.0)])
+        return functools.partial(scaled_loss, scale=1.0)
+    if shape == "partial-positional":
+        cfg = {"reduction": "sum"}
+
+        def configured_loss(config, y_true, y_pred, weight=None, *rest):
+            return note(y_true, y_pred, 2 + (weight is not None) + len(rest), (), [("config", config, cfg), ("weight", weight, None)])
+        return functools.partial(configured_loss, cfg)
+
+    class UserLoss:
+        def __call__(self, y_true, y_pred, sample_weight=None):
+            return note(y_true, y_pred, None, (), [("sample_weight", sample_weight, None)])
+
+        def evaluate(self, y_true, y_pred, reduction="sum", *rest):
+            return note(y_true, y_pred, 2 + (reduction != "sum") + len(rest), (), [("reduction", reduction, "sum")])
+    if shape == "callable-object":
+        return UserLoss()
+    if shape == "bound-method":
+        return UserLoss().evaluate
+    raise ValueError(shape)
 
 
 def build(cls_name, model, loss, names, overrides, clock, rnd):
@@ -68,16 +153,23 @@ def main(run):
     run.rule = ("offline contract checker over the event log of generated call histories for the product explainer class "
                 "{IncrementalPFI, IncrementalSage, BatchSage, IntervalSage} x {required arguments only, overrides} x feature-name "
                 "types {str,int,float,mixed,spelled (str names spelling numeric names),odd} x d in 1..5 x n_inner (constructor and per-call override) x update_storage flags; the "
-                "loss is a plain two-positional-parameter function; checks: construction, result keys == given names, seen_samples "
+                "loss follows the documented positional signature in one of the shapes {two-positional, positional-only, defaulted third / many further "
+                "defaulted parameters, keyword-only options, all-defaulted, *args lambda, *args/**kwargs, functools.partial (keyword / leading positional "
+                "bound), callable object, bound method} and records what it receives (always exactly (y_true, y_pred_dict), nothing for a further "
+                "parameter); streams {unique values, runs of equal-valued observations as distinct dicts, the same dict object handed in again, one dict "
+                "overwritten in place} with manual update_storage() calls before / after explain_one; checks: construction, result keys == given names, seen_samples "
                 "+1, model evaluations 0 / 1+d*n_inner, x / y / feature-name list unchanged (deep snapshots), storage updated "
                 "exactly once with (x,y) after the last model/loss event or not at all, imputed sets have full size (an observation "
                 "is never its own background), return value == importance_values; evaluations = explain_one calls judged; "
                 "non-trivial = distinct (class, names type, d, n_inner, defaults/overrides, call flags) with >= 1 explained call")
     run.assumptions = ["feature names pairwise distinct under ==", "keys that compare and hash equal to the given names are accepted (NumPy scalars)"]
+    run.require_count("loss-calls-judged", "repeated-observation-calls", "equal-to-last-stored-calls", "same-object-restored-calls",
+                      "manual-update-storage-calls", *["loss-shape:" + s_ for s_ in LOSS_SHAPES], *["stream:" + s_ for s_ in set(STREAMS)])
     run.require("ixai/explainer/base.py:BaseIncrementalFeatureImportance.__init__", "ixai/explainer/pfi.py:IncrementalPFI.explain_one",
                 "ixai/explainer/sage/incremental.py:IncrementalSage.explain_one", "ixai/explainer/sage/batch.py:BatchSage.explain_many",
                 "ixai/explainer/sage/interval.py:IntervalSage.explain_one")
     rnd = random.Random(run.shard_seed)
+    rnd2 = random.Random(run.shard_seed + 15015)     # loss shapes, stream kinds and manual storage calls: a generator of their own
     classes = ["IncrementalPFI", "IncrementalSage", "BatchSage", "IntervalSage"]
     for rep in range(REPS[run.tier]):
         for cls_name, nk, d, use_over in itertools.product(classes, ["str", "int", "float", "mixed", "spelled", "odd"], [1, 2, 3, 5], [False, True]):
@@ -89,9 +181,14 @@ def main(run):
             clock = Clock()
             model = Models(rnd.choice(["scalar", "multi", "linear"]), names, exact=False, clock=clock)
             inner = Losses("sq", exact=False, clock=clock)
-
-            def loss(y_true, y_pred):          # the documented positional signature, nothing more
-                return inner(y_true, y_pred)
+            shape = rnd2.choice(LOSS_SHAPES)
+            loss = make_loss(shape, inner)
+            run.count("loss-shape:" + shape)
+            stream = rnd2.choice(STREAMS)
+            run.count("stream:" + stream)
+            palette = rnd2.choice([[0, 1], [0, 1, 2], [0.0, 0.5], None])     # binary / categorical codes / two sensor levels / fresh values
+            prev_x = prev_y = None
+            last_stored = None          # (x snapshot, y) of the storage update event seen last (explain_one or manual)
             overrides = None
             if use_over:
                 overrides = {"n_inner": rnd.choice([1, 2, 3]), "alpha": rnd.choice([0.001, 0.3, 1.0]), "dyn": rnd.random() < .5,
@@ -100,8 +197,8 @@ def main(run):
             seed = rnd.randrange(2 ** 31)
             random.seed(seed)
             np.random.seed(seed)
-            tag = f"{cls_name} names={nk} d={d} {'overrides=' + repr(overrides) if use_over else 'required-arguments-only'}"
-            replay = {"class": cls_name, "names": names, "overrides": overrides, "seed": seed}
+            tag = f"{cls_name} names={nk} d={d} loss={shape} stream={stream} {'overrides=' + repr(overrides) if use_over else 'required-arguments-only'}"
+            replay = {"class": cls_name, "names": names, "overrides": overrides, "seed": seed, "loss_shape": shape, "stream": stream, "palette": palette}
             run.ok(kind="construct")
             try:
                 e, st = build(cls_name, model, loss, names, overrides, clock, rnd)
@@ -122,6 +219,25 @@ def main(run):
                 if t < 3 and cls_name.startswith("Incremental") and model.kind != "linear" and rep % 2 == 1:
                     x["optional_input"] = 500 + t       # an unexplained model input that later observations no longer carry
                 y = float(rnd.randrange(-5, 6))
+                repeated = False
+                if stream != "unique":
+                    # low-cardinality / constant stretches of a stream: runs of consecutive observations with EQUAL x and y.  "runs":
+                    # every observation is a dict object of its own; "same-object": the caller hands the very same dict object in
+                    # again during a run; "mutated-object": the caller keeps ONE dict and overwrites its values for every observation
+                    if t > 0 and rnd2.random() < 0.45:
+                        repeated = True
+                        x, y = (dict(prev_x) if stream == "runs" else prev_x), prev_y
+                    elif stream == "mutated-object" and t > 0:
+                        fresh = dict(x)
+                        x = prev_x
+                        x.clear()
+                        x.update(fresh)
+                    elif palette is not None:
+                        x = {f: rnd2.choice(palette) for f in x}
+                        y = float(rnd2.randrange(0, 2))
+                    prev_x, prev_y = x, y
+                    if repeated:
+                        run.count("repeated-observation-calls")
                 if t == 3 and use_over and overrides.get("_imputer_obj") is not None:
                     # another explainer is built around the SAME imputer object (no storage argument): must not disturb this one
                     try:
@@ -156,8 +272,19 @@ def main(run):
                         run.violation(f"call-raises:{cls_name}", f"{tag} call {t}: injected fault surfaced as {type(ex).__name__}: {ex}", {**replay, "call": t})
                         break
                     clock.fail_at = None
+                manual_before = False
+                if incremental and st is not None and t > 0 and kw.get("update_storage", True) and rnd2.random() < 0.08:
+                    # the user stores the observation through the public method AND explains it with the default flag afterwards:
+                    # explain_one still hands (x, y) to the storage exactly once (the observation is in its own background by the
+                    # user's choice then: the own-background count below only bounds the differing features)
+                    e.update_storage(x, y)
+                    manual_before = True
+                    last_stored = (copy.deepcopy(x), y)
+                    run.count("manual-update-storage-calls")
                 seen0 = getattr(e, "seen_samples", None)
                 clock.reset()
+                del _LOSS_CALLS[:]
+                _LOSS_STATE[:] = [0, y0 if incremental else _ANY]     # the batch explainers evaluate the loss on the stored observations' labels
                 creplay = {**replay, "call": t, "kwargs": kw}
                 try:
                     ret = e.explain_one(x, y, **kw)
@@ -174,6 +301,13 @@ def main(run):
                 log = list(clock.log)
                 run.ok(kind="call")
                 bad = []
+                # the loss is called as loss(y_true, y_pred_dict): two positional arguments, no keywords, nothing for any further
+                # (defaulted / keyword-only / variadic) parameter the user's callable owns
+                run.count("loss-calls-judged", _LOSS_STATE[0])
+                for npos, kwnames, got, y_true, ptype in _LOSS_CALLS[:1]:
+                    bad.append(("loss-signature", f"loss ({shape}) called with {npos if npos is not None else '?'} positional arguments, keywords "
+                                                  f"{list(kwnames)}, further parameters received {got}, y_true={y_true!r} (observation's y {y0!r}), y_pred "
+                                                  f"of type {ptype} (documented call: loss(y_true, y_pred_dict))"))
                 if x != x0 or y != y0:
                     bad.append(("mutation", f"x or y modified: {x0!r} -> {x!r}"))
                 if names != names_snapshot or list(e.feature_names) != list(names_snapshot):
@@ -201,11 +335,19 @@ def main(run):
                             for ev in models[1 + g * n_used:1 + (g + 1) * n_used]:
                                 nd = sum(1 for f in names if ev[1][f] != x[f])
                                 want_nd = 1 if cls_name == "IncrementalPFI" else d - 1 - g
-                                if nd != want_nd:
+                                # equal-valued observations / an observation the user stored beforehand: a background value may
+                                # coincide with the instance's own value, the features NOT imputed still have to be the instance's
+                                if nd > want_nd if (stream != "unique" or manual_before) else nd != want_nd:
                                     bad.append(("own-background", f"group {g}: input differs from x on {nd} features, expected {want_nd} "
                                                                   f"(an observation must never be its own background)"))
                     if st is not None:
                         ups = [i for i, ev in enumerate(log) if ev[0] == "storage.update"]
+                        if kw.get("update_storage", True) and last_stored is not None and last_stored == (x0, y0):
+                            run.count("equal-to-last-stored-calls")      # a NEW observation that equals the one stored last: stored all the same
+                            if repeated and stream != "runs":
+                                run.count("same-object-restored-calls")
+                        if ups:
+                            last_stored = (x0, y0)
                         if kw.get("update_storage", True):
                             others = [i for i, ev in enumerate(log) if ev[0] in ("model", "loss")]
                             if len(ups) != 1 or log[ups[0]][1] != x0 or log[ups[0]][2] != y or (others and ups[0] < max(others)):
@@ -217,6 +359,11 @@ def main(run):
                                                                 f"updates the explainer's own storage, nothing else)"))
                 if t == 0 and manual_first and not bad:
                     e.update_storage(x, y)          # the user seeds the storage through the public method instead
+                    last_stored = (x0, y0)
+                elif incremental and st is not None and t > 0 and not kw.get("update_storage", True) and not bad and rnd2.random() < 0.5:
+                    e.update_storage(x, y)          # explained without storing, stored by the user afterwards (user-managed storage)
+                    last_stored = (x0, y0)
+                    run.count("manual-update-storage-calls")
                 if not incremental and st is not None:
                     ups = [ev for ev in log if ev[0] == "storage.update"]
                     if len(ups) != 1 or ups[0][1] != x0 or ups[0][2] != y:
